@@ -289,7 +289,7 @@ class OrthoXMLParser(object):
                     logger.error("cannot parse HOG '{}': {}".format(hog.hog_id, e))
                     raise
         elif tag == "{http://orthoXML.org/2011/}groups":
-            if self.with_progress:
+            if self.with_progress and hasattr(self, 'hog_pbar'):
                 self.hog_pbar.close()
                 delattr(self, 'hog_pbar')
 
